@@ -32,6 +32,9 @@ func genC12(tier string, seed int64) (*Family, error) {
 	if tier == "thorough" {
 		lists = append(lists, []string{"r3", "r1", "r0", "r2"}, []string{"r0", "r1", "r2"}, []string{"r2", "r1"}, []string{"r3", "zz", "r0", "r1"})
 	}
+	// names that differ from existing ones only by blanks or case are unknown names
+	nPlain := len(lists)
+	lists = append(lists, []string{" r0", "r1 "}, []string{"r2", " r0", "R1"})
 	var b strings.Builder
 	add := func(name, stratum, desc, call, oracle string) {
 		fmt.Fprintf(&b, "\n// %s\nfunc %s() {\n\tn := %d\n\ts := symSal(n)\n\tf := symFlags(\"f\", n)\n\tb := vnd.Bool(\"b\")\n\t_ = b\n\trb := build(n, s, f)\n\teng := engine.NewGengine()\n\terr := %s\n\tvnd.Event(\"ret\")\n\tvnd.Quiesce()\n\tvnd.Reach(\"executed\")\n\ttr := vnd.Trace()\n\t_ = tr\n%s}\n", desc, name, n, call, oracle)
@@ -44,7 +47,7 @@ func genC12(tier string, seed int64) (*Family, error) {
 		}
 		var existing []string
 		for _, nm := range l {
-			if strings.HasPrefix(nm, "r") {
+			if strings.HasPrefix(nm, "r") && len(nm) == 2 {
 				cand[int(nm[1]-'0')] = "true"
 				existing = append(existing, string(nm[1]))
 			}
@@ -74,6 +77,9 @@ func genC12(tier string, seed int64) (*Family, error) {
 			orNothing("\tcheckAsGiven(tr, n, "+wantLit+", nil, f, b, err)\n"))
 		add(id("SelConc"), "ExecuteSelectedRulesConcurrent", desc("ExecuteSelectedRulesConcurrent"), "eng.ExecuteSelectedRulesConcurrent(rb, "+names+")",
 			orNothing(fmt.Sprintf("\tcheckTwoStageCand(tr, n, %s, %d, 0, false, false, s, f, true, err)\n", candLit, k)))
+		if li >= nPlain {
+			continue // padded names: the sorted, as-given, stop-tag and concurrent entry points
+		}
 		add(id("SelMix"), "ExecuteSelectedRulesMixModel", desc("ExecuteSelectedRulesMixModel"), "eng.ExecuteSelectedRulesMixModel(rb, "+names+")",
 			orNothing(fmt.Sprintf("\tcheckTwoStageCand(tr, n, %s, 1, %d, true, false, s, f, false, err)\n", candLit, k-1)))
 		inv1 := "true"
